@@ -171,7 +171,7 @@ def _run_symtaps(res, cfg, facts):
     res.validated = dev
     if dev > 1e-9:
         res.status = 'error'; res.trace = 'symbolic value deviates from real torch by %g' % dev; return res
-    st = smt.Stats(); solver = smt.Solver(stats=st, timeout_ms=20000)
+    st = smt.Stats(); solver = smt.Solver(stats=st, timeout_ms=60000, nl_timeout_ms=20000)
     tau = Fraction(1, 10 ** 9) * lc * lr
     sats = []
     for a, b in zip(*so[1]):
@@ -201,7 +201,10 @@ def run_config(cfg):
     facts = _facts(cfg)
     if cfg['kind'] == 'symtaps':
         return _run_symtaps(res, cfg, facts)
-    in_specs, impl, ref = _case(cfg)
+    try:
+        in_specs, impl, ref = _case(cfg)
+    except Exception as e:      # PyWavelets refuses the configuration (e.g. reflect mode on a length-1 axis)
+        res.status = 'skipped'; res.notes.append('oracle raised %s: %s' % (type(e).__name__, str(e)[:80])); return res
     lincheck.check_linear(res, cfg, facts, in_specs, impl, ref, what='4-tuple DWT %s' % cfg['dir'],
                           allowed_raise=(lambda so: cfg['mode'] == 'reflect'), raise_is_skip=False)
     return res
